@@ -626,3 +626,202 @@ func GenDefaultCase(t *rapid.T) *ValueCase {
 	c.Steps = []string{typ}
 	return c
 }
+
+// ---------------------------------------------------------------------------------------------
+// deletions with and without the reservation a category demands
+
+// DeleteCase is a ValueCase with several expected rules.
+type DeleteCase struct {
+	ValueCase
+	Rules []string `json:"rules"`
+}
+
+// GenDeleteCase deletes one field of a message or one number (with all its alias names) of an enum and
+// reserves its number (exactly, by a covering range, by a range that just misses it, not at all) and its
+// name(s) (all, some, a look-alike, none). The expected rules follow from those facts alone.
+func GenDeleteCase(t *rapid.T) *DeleteCase {
+	g := &valGen{t: t}
+	c := &DeleteCase{}
+	c.Path = "vals/v1/vals.proto"
+	c.Syntax = []string{"proto2", "proto3", "editions"}[g.pick("syntax", 3)]
+	isEnum := g.coin("enum")
+	c.Kind = "delete-field"
+	if isEnum {
+		c.Kind = "delete-enum-value"
+	}
+	type member struct {
+		num   int64
+		names []string
+	}
+	n := g.intn("members", 2, 5)
+	var ms []member
+	used := map[int64]bool{}
+	for i := 0; i < n; i++ {
+		num := int64(i*7 + 1 + g.intn("numjitter", 0, 4))
+		if isEnum && i == 0 {
+			num = 0
+		}
+		if isEnum && g.intn("negative", 0, 5) == 0 && i > 0 {
+			num = -num
+		}
+		for used[num] {
+			num++
+		}
+		used[num] = true
+		m := member{num: num}
+		k := 1
+		if isEnum && g.intn("aliased", 0, 2) == 0 {
+			k = g.intn("names", 2, 3)
+		}
+		for j := 0; j < k; j++ {
+			if isEnum {
+				m.names = append(m.names, fmt.Sprintf("TARGET_M%d_N%d", i, j))
+			} else {
+				m.names = append(m.names, fmt.Sprintf("member_%d", i))
+			}
+		}
+		ms = append(ms, m)
+	}
+	victim := 1 + g.pick("victim", n-1)
+	v := ms[victim]
+	// number reservation
+	var ranges []Iv
+	numCovered := false
+	switch g.pick("reservenumber", 5) {
+	case 0: // none
+	case 1:
+		ranges, numCovered = []Iv{{v.num, v.num}}, true
+	case 2: // a covering range that does not swallow a surviving member
+		lo, hi := v.num, v.num
+		for d := 0; d < g.intn("below", 0, 2) && !used[lo-1] && lo-1 != 0 && (isEnum || lo-1 >= 1); d++ {
+			lo--
+		}
+		for d := 0; d < g.intn("above", 0, 2) && !used[hi+1] && hi+1 != 0; d++ {
+			hi++
+		}
+		ranges, numCovered = []Iv{{lo, hi}}, true
+	case 3: // just misses it from above
+		if !used[v.num+1] && v.num+1 != 0 {
+			ranges = []Iv{{v.num + 1, v.num + 1}}
+			if !used[v.num+2] && v.num+2 != 0 && g.coin("wider") {
+				ranges[0].E = v.num + 2
+			}
+		}
+	case 4: // just misses it from below
+		if !used[v.num-1] && v.num-1 != 0 && (isEnum || v.num-1 >= 1) {
+			ranges = []Iv{{v.num - 1, v.num - 1}}
+		}
+	}
+	// name reservation
+	var resNames []string
+	allNames := false
+	switch g.pick("reservenames", 4) {
+	case 0:
+	case 1:
+		resNames, allNames = append(resNames, v.names...), true
+	case 2: // all but one (with a single name: none)
+		skip := g.pick("skip", len(v.names))
+		for i, nm := range v.names {
+			if i != skip {
+				resNames = append(resNames, nm)
+			}
+		}
+	case 3: // look-alikes only
+		for _, nm := range v.names {
+			resNames = append(resNames, nm+"_")
+		}
+		if g.coin("casing") && !isEnum {
+			resNames = []string{strings.ToUpper(v.names[0])}
+		}
+	}
+	c.Rules = []string{"FIELD_NO_DELETE"}
+	if !numCovered {
+		c.Rules = append(c.Rules, "FIELD_NO_DELETE_UNLESS_NUMBER_RESERVED")
+	}
+	if !allNames {
+		c.Rules = append(c.Rules, "FIELD_NO_DELETE_UNLESS_NAME_RESERVED")
+	}
+	if isEnum {
+		for i := range c.Rules {
+			c.Rules[i] = "ENUM_VALUE" + strings.TrimPrefix(c.Rules[i], "FIELD")
+		}
+	}
+	c.Rule = c.Rules[0]
+	c.Breaking = true
+	nested := g.coin("nested")
+	render := func(deleted bool) (string, Pos, Pos) {
+		var b []string
+		switch c.Syntax {
+		case "proto2":
+			b = append(b, `syntax = "proto2";`)
+		case "proto3":
+			b = append(b, `syntax = "proto3";`)
+		default:
+			b = append(b, `edition = "2023";`)
+		}
+		b = append(b, "", "package vals.v1;", "")
+		ind := ""
+		if nested {
+			b = append(b, "message Outer {")
+			ind = "  "
+		}
+		label := ""
+		if c.Syntax == "proto2" {
+			label = "optional "
+		}
+		start := Pos{Line: len(b) + 1, Col: len(ind) + 1}
+		aliased := false
+		for i, m := range ms {
+			if len(m.names) > 1 && !(deleted && i == victim) {
+				aliased = true
+			}
+		}
+		if isEnum {
+			b = append(b, ind+"enum Target {")
+			if aliased {
+				b = append(b, ind+"  option allow_alias = true;")
+			}
+		} else {
+			b = append(b, ind+"message Target {")
+		}
+		for i, m := range ms {
+			if deleted && i == victim {
+				continue
+			}
+			for _, nm := range m.names {
+				if isEnum {
+					b = append(b, fmt.Sprintf("%s  %s = %d;", ind, nm, m.num))
+				} else {
+					b = append(b, fmt.Sprintf("%s  %sint32 %s = %d;", ind, label, nm, m.num))
+				}
+			}
+		}
+		if deleted {
+			if len(ranges) > 0 {
+				b = append(b, g.renderIvs("reserved", ranges, math.MaxInt64, ind+"  ")...)
+			}
+			if len(resNames) > 0 {
+				var q []string
+				for _, nm := range resNames {
+					if c.Syntax == "editions" {
+						q = append(q, nm)
+					} else {
+						q = append(q, `"`+nm+`"`)
+					}
+				}
+				b = append(b, ind+"  reserved "+strings.Join(q, ", ")+";")
+			}
+		}
+		b = append(b, ind+"}")
+		end := Pos{Line: len(b), Col: len(ind) + 2}
+		if nested {
+			b = append(b, "}")
+		}
+		return strings.Join(b, "\n") + "\n", start, end
+	}
+	c.Old, _, _ = render(false)
+	c.New, c.Start, c.End = render(true)
+	c.Mention = append([]string{fmt.Sprintf("%d", v.num)}, v.names...)
+	c.Desc = fmt.Sprintf("%s %v=%d; reserved numbers %v (covers: %v), reserved names %v (all: %v)", c.Kind, v.names, v.num, ranges, numCovered, resNames, allNames)
+	return c
+}
